@@ -142,3 +142,11 @@ pub fn control_r11_1_unclassified_offset(fs: &CtlFs, at: u64, buf: &[u8]) -> Res
     Seek::seek(&mut *d, SeekFrom::Start(at))?;
     Write::write(&mut *d, buf)
 }
+
+/// R9.8 control: `find` with a predicate that is false for an `Err` item drops the failed read
+pub fn control_r9_8_find(d: &mut Dev, bufs: &mut [[u8; 4]; 3]) -> bool {
+    bufs.iter_mut()
+        .map(|b| Read::read(d, b).map_err(Error::<DevErr>::from))
+        .find(|r| r.as_ref().map_or(false, |n| *n == 4))
+        .is_some()
+}
